@@ -31,6 +31,10 @@ TOKENS = [
     "text/plain; charset=", "\t",
     # language negotiation: regional variants accepted / refused next to their primary tag
     "en-GB", "en;q=0.8", "en-US;q=0", "de-AT;q=0", "de;q=0", "fi", "fil-PH",
+    # byte ranges at their boundaries: inverted by one, empty, touching, spaced
+    "bytes=5-4", "bytes=1-0", "5-4", "1-0", "bytes=0-0,2-1", "bytes= 1 - 0", "bytes=5-5", "bytes=0-", "bytes=-1", "0-0,0-0", "2-1", ",5-",
+    # quoted list items that are empty or blank up to the '=' once the quotes are gone
+    '" =1"', '" ="', '"\xa0=x"', '" "', '""', '"="', '" a"=b', '"=v"', "\xa0=", " =", '"\t=1"',
 ]
 
 
